@@ -206,7 +206,7 @@ pub fn run(ctx: &Ctx) -> Rep {
     let xcheck_6 = ctx.pick(1, 16, 1);
     let xcheck_7 = ctx.pick(1, 128, 8);
     let twin_rate_6 = ctx.pick(1, 1, 1);
-    let twin_rate_7 = ctx.pick_hist(1, 8, 1);
+    let twin_rate_7 = ctx.pick(1, 8, 1);
     let rows_rate_6 = ctx.pick(1, 16, 2);
     let rows_rate_7 = ctx.pick(1, 64, 8);
 
@@ -465,7 +465,9 @@ pub fn run(ctx: &Ctx) -> Rep {
         let mut st = St { rep: Rep::new(), x: mk(), cur: [0; 8], cur_len: 0, cur_what: "" };
         let mut scratch = (Vec::new(), Vec::new());
         for n in [6usize, 7] {
-            for e in 0..4usize {
+            // entry points that leave their trace in the same cell share the cache: tracing one of them is enough
+            let mut traced_cells: Vec<u32> = Vec::new();
+            for e in [1usize, 0, 2, 3] {
                 let rank = |c: &[u8]| -> u16 {
                     let wd: Vec<u32> = c.iter().map(|&i| model::word(i)).collect();
                     if c.len() == 6 {
@@ -489,6 +491,12 @@ pub fn run(ctx: &Ctx) -> Rep {
                 if probe.recs.is_empty() {
                     continue;
                 }
+                let cell_off = probe.recs[0].0;
+                if traced_cells.contains(&cell_off) {
+                    st.rep.add(&format!("state_trace.{}.shares_a_cell_with_a_traced_entry_point", ename), 1);
+                    continue;
+                }
+                traced_cells.push(cell_off);
                 let mut trace = Trace::new();
                 if n == 6 {
                     drive::for_each_subset::<6>(|c, id| { let v = m.ord_best(c); trace.observe(w, &mut scratch, id, v, || rank(c)); });
